@@ -95,7 +95,15 @@ func c12GenCase(rng *rand.Rand, thorough bool) (c12Cfg, []c12Event) {
 	cfg.election = 10 + rng.IntN(6)
 	cfg.heartbeat = 1 + rng.IntN(2)
 	cfg.workers = 1 + rng.IntN(4)
-	cfg.trigger = uint64(4 + rng.IntN(40))
+	// Bimodal: aggressive auto-compaction (snapshots everywhere, restarts go
+	// through restore+replay) or late compaction (long snapshot-free prefixes,
+	// restarts resume from the durable applied index; snapshots then come from
+	// the director's CompactLog events).
+	if rng.IntN(2) == 0 {
+		cfg.trigger = uint64(4 + rng.IntN(40))
+	} else {
+		cfg.trigger = uint64(200 + rng.IntN(600))
+	}
 	cfg.checkInterval = time.Duration(1+rng.IntN(15)) * time.Millisecond
 	cfg.storeDelayPct = rng.IntN(35)
 	cfg.smDelayPct = rng.IntN(35)
@@ -190,6 +198,8 @@ type c12Node struct {
 
 	rngMu sync.Mutex
 	rng   *rand.Rand
+
+	gate atomic.Pointer[c12Gate]
 }
 
 func (nd *c12Node) opDelay(pct int) func() time.Duration {
@@ -452,6 +462,10 @@ func (cl *c12Cluster) client(id int, rng *rand.Rand) {
 		}
 		ctr++
 		body := fmt.Sprintf("c%d-%d-s%d|%s", id, ctr, slot, strings.Repeat("x", rng.IntN(48)))
+		before := ""
+		if st, ok := cl.status(nd, slot); ok {
+			before = fmt.Sprintf("role=%d term=%d leader=%d commit=%d", st.Role, st.Term, st.LeaderID, st.CommitIndex)
+		}
 		cl.mon.registerProposal(slot, body)
 		fut, err := inc.rt.Propose(cl.ctx, multiraft.SlotID(slot), c12Envelope(body))
 		if err != nil {
@@ -462,7 +476,7 @@ func (cl *c12Cluster) client(id int, rng *rand.Rand) {
 		cl.proposed.Add(1)
 		cl.outcome("propose.accepted")
 		cl.waiters.Add(1)
-		go func(nodeID uint64) {
+		go func(nd *c12Node) {
 			defer cl.waiters.Done()
 			res, err := fut.Wait(cl.ctx)
 			if err != nil {
@@ -470,8 +484,8 @@ func (cl *c12Cluster) client(id int, rng *rand.Rand) {
 				return
 			}
 			cl.outcome("future.acknowledged")
-			cl.mon.ack(slot, nodeID, body, res)
-		}(uint64(nd.id))
+			cl.mon.ack(slot, uint64(nd.id), body, before, res, nd.logs[slot])
+		}(nd)
 		if !cl.burst.Load() {
 			time.Sleep(time.Duration(rng.IntN(4000)) * time.Microsecond)
 		}
@@ -665,8 +679,55 @@ func (cl *c12Cluster) quiesce(limit time.Duration) c12Quiesced {
 		}
 		return stable >= 2
 	}
-	ok := c12Poll(limit, check)
-	return c12Quiesced{ok: ok, commit: last, detail: detail}
+	// A MsgSnap lost during the fault phase leaves the follower's progress in
+	// StateSnapshot on the leader until leadership changes (nothing in /repo
+	// calls RawNode.ReportSnapshot). That is a liveness matter outside C12, so
+	// the director nudges a stalled slot with leader transfers.
+	deadline := time.Now().Add(limit)
+	nextNudge := time.Now().Add(3 * time.Second)
+	nudge := 0
+	for {
+		if check() {
+			return c12Quiesced{ok: true, commit: last}
+		}
+		now := time.Now()
+		if now.After(deadline) {
+			return c12Quiesced{ok: false, commit: last, detail: detail}
+		}
+		if now.After(nextNudge) {
+			nextNudge = now.Add(3 * time.Second)
+			nudge++
+			for _, slot := range cl.slots {
+				if !cl.converged(slot) {
+					if ls := cl.leaders(slot); len(ls) > 0 {
+						if inc := ls[0].cur.Load(); inc != nil {
+							to := cl.nodes[nudge%len(cl.nodes)]
+							_ = inc.rt.TransferLeadership(context.Background(), multiraft.SlotID(slot), to.id)
+							cl.r.Count("quiesce.nudge_leader_transfer", 1)
+						}
+					}
+				}
+			}
+		}
+		time.Sleep(15 * time.Millisecond)
+	}
+}
+
+func (cl *c12Cluster) converged(slot uint64) bool {
+	var commit uint64
+	for i, nd := range cl.nodes {
+		st, ok := cl.status(nd, slot)
+		if !ok {
+			return false
+		}
+		if i == 0 {
+			commit = st.CommitIndex
+		}
+		if st.CommitIndex != commit || st.AppliedIndex != commit {
+			return false
+		}
+	}
+	return true
 }
 
 // finalCheck: with every replica at commit==applied==Q, every replica holds
@@ -704,6 +765,11 @@ func (cl *c12Cluster) finalCheck(q c12Quiesced) {
 		}
 	}
 	for _, a := range m.acks {
+		if a.flagged {
+			// already reported online with a more specific signature
+			m.r.Count("final.acks_skipped_already_flagged", 1)
+			continue
+		}
 		m.r.Eval(1)
 		Q := q.commit[a.Slot]
 		if a.Index > Q {
@@ -732,21 +798,12 @@ func (cl *c12Cluster) finalCheck(q c12Quiesced) {
 
 // ---------------------------------------------------------------------------
 
-func c12RunCase(t *testing.T, r *verifkit.Run, caseIdx int) {
-	rng := r.Rand(12, uint64(caseIdx))
-	cfg, evs := c12GenCase(rng, r.Thorough())
-	kinds := make([]string, len(evs))
-	for i, e := range evs {
-		kinds[i] = e.kind
-		if e.kind == "crash" {
-			kinds[i] += ":" + e.crash
-		}
-	}
-	r.BeginCase(caseIdx, cfg.String()+" | "+strings.Join(kinds, ","))
-
+// c12NewCluster builds the nodes (not yet started) and the teardown function.
+func c12NewCluster(t *testing.T, r *verifkit.Run, caseIdx int, cfgp *c12Cfg) (*c12Cluster, func()) {
+	cfg := *cfgp
 	dir := t.TempDir()
 	mon := c12NewMonitor(r)
-	cl := &c12Cluster{r: r, mon: mon, cfg: &cfg, obs: &c12Observer{}, out: map[string]int{}}
+	cl := &c12Cluster{r: r, mon: mon, cfg: cfgp, obs: &c12Observer{}, out: map[string]int{}}
 	cl.net = c12NewNet(r, r.Rand(12, uint64(caseIdx), 1))
 	cl.net.setFaults(cfg.base)
 	cl.ctx, cl.cancel = context.WithCancel(context.Background())
@@ -756,7 +813,7 @@ func c12RunCase(t *testing.T, r *verifkit.Run, caseIdx int) {
 	for i := 1; i <= cfg.nodes; i++ {
 		id := multiraft.NodeID(i)
 		cl.voters = append(cl.voters, id)
-		nd := &c12Node{id: id, cfg: &cfg, cl: cl, disks: map[uint64]*c12Disk{}, logs: map[uint64]*c12Log{},
+		nd := &c12Node{id: id, cfg: cfgp, cl: cl, disks: map[uint64]*c12Disk{}, logs: map[uint64]*c12Log{},
 			rng: r.Rand(12, uint64(caseIdx), 100+uint64(i))}
 		if cfg.memMode {
 			nd.fs = vfs.NewCrashableMem()
@@ -767,7 +824,7 @@ func c12RunCase(t *testing.T, r *verifkit.Run, caseIdx int) {
 		nd.snapPath = filepath.Join(dir, fmt.Sprintf("n%d", i), "snapshots")
 		for _, s := range cl.slots {
 			nd.disks[s] = &c12Disk{list: map[uint64]c12Rec{}}
-			nd.logs[s] = &c12Log{ents: map[uint64]c12LogEnt{}}
+			nd.logs[s] = &c12Log{ents: map[uint64]c12LogEnt{}, bodies: map[string][2]uint64{}}
 		}
 		cl.nodes = append(cl.nodes, nd)
 		cl.net.nodes[id] = nd
@@ -789,7 +846,25 @@ func c12RunCase(t *testing.T, r *verifkit.Run, caseIdx int) {
 		}
 		cl.outMu.Unlock()
 	}
+
+	return cl, teardown
+}
+
+func c12RunCase(t *testing.T, r *verifkit.Run, caseIdx int) {
+	rng := r.Rand(12, uint64(caseIdx))
+	cfg, evs := c12GenCase(rng, r.Thorough())
+	kinds := make([]string, len(evs))
+	for i, e := range evs {
+		kinds[i] = e.kind
+		if e.kind == "crash" {
+			kinds[i] += ":" + e.crash
+		}
+	}
+	r.BeginCase(caseIdx, cfg.String()+" | "+strings.Join(kinds, ","))
+
+	cl, teardown := c12NewCluster(t, r, caseIdx, &cfg)
 	defer teardown()
+	mon := cl.mon
 
 	for _, nd := range cl.nodes {
 		if !nd.start(true) {
@@ -822,9 +897,6 @@ func c12RunCase(t *testing.T, r *verifkit.Run, caseIdx int) {
 		labels = append(labels, label)
 		r.Count("event."+strings.TrimRight(label, "0123456789"), 1)
 		time.Sleep(e.pause)
-		if mon.r.NumViolations() > 0 && mon.isViolated() {
-			break
-		}
 	}
 
 	// heal, calm the network, make sure everybody is up, let clients finish
@@ -835,7 +907,20 @@ func c12RunCase(t *testing.T, r *verifkit.Run, caseIdx int) {
 	cl.stopCli.Store(true)
 	cl.clients.Wait()
 
-	q := cl.quiesce(120 * time.Second)
+	var q c12Quiesced
+	nodeDown := false
+	for _, nd := range cl.nodes {
+		if nd.cur.Load() == nil {
+			nodeDown = true
+		}
+	}
+	if nodeDown {
+		// a restart failed (already reported by start()); nothing to quiesce on
+		q = c12Quiesced{detail: "a node could not be restarted"}
+		r.Count("cases.aborted_restart_failed", 1)
+	} else {
+		q = cl.quiesce(120 * time.Second)
+	}
 	cl.cancel()
 	cl.waiters.Wait()
 
@@ -862,9 +947,17 @@ func c12RunCase(t *testing.T, r *verifkit.Run, caseIdx int) {
 	r.Max("max_applied_per_case", applied)
 	r.Count("cases", 1)
 
-	if !q.ok {
+	mon.mu.Lock()
+	if len(mon.saveErrs) > 0 {
+		r.Note(fmt.Sprintf("case%d.save_errors", caseIdx), mon.saveErrs)
+	}
+	mon.mu.Unlock()
+	if nodeDown {
+		// verdict comes from the restart violation
+	} else if !q.ok {
 		r.Count("cases.quiesce_timeout", 1)
 		r.Inconclusive(fmt.Sprintf("case %d: cluster did not quiesce within watchdog (%s)", caseIdx, q.detail))
+		r.Note(fmt.Sprintf("case%d.quiesce_dump", caseIdx), cl.dump())
 	} else {
 		cl.finalCheck(q)
 		r.Count("cases.final_check_done", 1)
@@ -881,10 +974,40 @@ func c12RunCase(t *testing.T, r *verifkit.Run, caseIdx int) {
 	}
 }
 
-func (m *c12Monitor) isViolated() bool {
-	m.mu.Lock()
-	defer m.mu.Unlock()
-	return m.violated
+// dump collects the raft status of every replica (diagnostics for inconclusive cases).
+func (cl *c12Cluster) dump() any {
+	out := map[string]any{}
+	for _, slot := range cl.slots {
+		for _, nd := range cl.nodes {
+			key := fmt.Sprintf("slot%d.node%d", slot, nd.id)
+			inc := nd.cur.Load()
+			if inc == nil {
+				out[key] = "down"
+				continue
+			}
+			ctx, cancel := context.WithTimeout(context.Background(), 2*time.Second)
+			st, err := inc.rt.FreshStatus(ctx, multiraft.SlotID(slot))
+			cancel()
+			if err != nil {
+				st2, err2 := inc.rt.Status(multiraft.SlotID(slot))
+				out[key] = fmt.Sprintf("fresh status error: %v; cached: %+v err=%v", err, st2, err2)
+				continue
+			}
+			sm := inc.sms[slot]
+			sm.mu.Lock()
+			hist := append([]string(nil), sm.hist...)
+			sm.mu.Unlock()
+			if len(hist) > 8 {
+				hist = hist[len(hist)-8:]
+			}
+			out[key] = map[string]any{"inc": inc.no, "role": st.Role, "leader": st.LeaderID, "term": st.Term, "commit": st.CommitIndex, "applied": st.AppliedIndex,
+				"progress": fmt.Sprintf("%+v", st.Progress), "sm_tail": hist}
+		}
+	}
+	cl.mon.mu.Lock()
+	out["save_errors"] = cl.mon.saveErrs
+	cl.mon.mu.Unlock()
+	return out
 }
 
 func TestVerifC12(t *testing.T) {
@@ -896,10 +1019,23 @@ func TestVerifC12(t *testing.T) {
 	r.Assume("Empty and membership entries are not delivered to the state machine; index continuity is checked against the entry kinds the node itself persisted through Storage.Save.")
 
 	n := r.N(11, 95)
+	// Wall-clock watchdog only: stop early (inconclusive) rather than let the
+	// runner kill the unit and lose the observations made so far.
+	budget := time.Duration(r.N(700, 3000)) * time.Second
+	started := time.Now()
 	for i := 0; i < n; i++ {
 		if r.Skip(i) {
 			continue
 		}
+		if time.Since(started) > budget {
+			r.Inconclusive(fmt.Sprintf("wall-clock budget exhausted before case %d of %d", i, n))
+			break
+		}
 		c12RunCase(t, r, i)
+	}
+	// Case n: directed schedule reduced from a violation the random search
+	// found (see c12_directed_test.go). Same oracle, crafted schedule.
+	if !r.Skip(n) {
+		c12RunDirectedStaleLeader(t, r, n)
 	}
 }
